@@ -147,6 +147,48 @@ Example C08_defs_witness_rejected :
   add_definitions ascii_classes [ustr "foo"%string; ustr "bar"%string] = Ok [ustr "Foo"%string; ustr "Bar"%string].
 Proof. destruct defs_witness_rejected as [_ [_ [H1 H2]]]. auto. Qed.
 
+(* ALL definition-level name sources of one call -- definition keys, the titled
+   root (named from its title), patch renames -- give pairwise distinct item
+   names, or Err.  (Derived names of inline sub-types are not in the model.) *)
+Theorem C08_batch_distinct_or_err :
+  forall cls, ClassesOK cls ->
+  forall (patch : list (ustring * ustring)) (defs : list ustring) (title : option ustring) ids,
+    add_batch cls patch defs title = Ok ids ->
+    NoDup ids /\ ids = batch_type_names cls patch defs title /\
+    (patch = [] -> Forall (fun i => syn_ident_ok cls i = true) ids).
+Proof. exact add_batch_distinct_or_err. Qed.
+
+(* the root title takes part in the comparison: a definition key whose (patched)
+   type name equals that of the title is rejected *)
+Theorem C08_batch_err_title_vs_key :
+  forall cls (patch : list (ustring * ustring)) (defs : list ustring) (t d : ustring),
+    In d defs ->
+    type_patch patch (sanitize cls d Pascal) = type_patch patch (sanitize cls t Pascal) ->
+    add_batch cls patch defs (Some t) = Err.
+Proof. exact add_batch_err_title_vs_key. Qed.
+
+Theorem C08_batch_err_key_vs_key :
+  forall cls (patch : list (ustring * ustring)) (defs : list ustring) (title : option ustring) (d1 d2 : ustring),
+    In d1 defs -> In d2 defs -> d1 <> d2 ->
+    type_patch patch (sanitize cls d1 Pascal) = type_patch patch (sanitize cls d2 Pascal) ->
+    add_batch cls patch defs title = Err.
+Proof. exact add_batch_err_key_vs_key. Qed.
+
+(* add_batch without patch and root is add_definitions *)
+Theorem C08_batch_defs_only :
+  forall cls (defs : list ustring), add_batch cls [] defs None = add_definitions cls defs.
+Proof. exact add_batch_defs_only. Qed.
+
+Example C08_batch_witnesses :
+  add_batch ascii_classes [] [ustr "my-type"%string] (Some (ustr "my type"%string)) = Err /\
+  add_batch ascii_classes [] [ustr "T"%string] (Some (ustr "T"%string)) = Err /\
+  add_batch ascii_classes [] [ustr "my-type"%string] (Some (ustr "my other type"%string))
+    = Ok [ustr "MyType"%string; ustr "MyOtherType"%string] /\
+  add_batch ascii_classes [(ustr "Foo"%string, ustr "Bar"%string)] [ustr "foo"%string; ustr "Bar"%string] None = Err /\
+  add_batch ascii_classes [(ustr "Foo"%string, ustr "Baz"%string)] [ustr "foo"%string; ustr "Bar"%string] None
+    = Ok [ustr "Baz"%string; ustr "Bar"%string].
+Proof. exact batch_witnesses. Qed.
+
 (* non-vacuity: the class hypotheses are satisfiable, and both the X fallback
    and the panic of the variant algorithm are reachable *)
 Theorem C08_classes_satisfiable : ClassesOK ascii_classes.
